@@ -3,6 +3,11 @@
 //
 //	cfg <ackTimeoutNs> <maxRetransmit> <nstart> [<level>] | send <id> <deadlineNs|-> [<kind>] | sleep <ns> | tick <aheadNs>
 //	  | ack <id> | rst <id> | pig <id> <tag> | resp <id> <con|non> <tag> | cancel <id> | mut <id>
+//	  | hsend <id> <deadlineNs|-> [<kind>] | burst <k>
+//
+// hsend: like send, but the request is issued from inside a handler of the connection (a request of the peer arrives, its
+// handler calls Conn.Do and waits); burst: k unrelated messages from the peer. All datagrams from the peer reach the
+// connection through one reader in order (levels hand / opt), so an `ack` after a burst is behind it.
 //
 // level: where the transmission parameters come from and who builds the connection —
 //
@@ -115,7 +120,7 @@ func encode(m *pool.Message) []byte {
 	return append([]byte(nil), b...)
 }
 
-func (sc *scenario) inject(typ message.Type, code codes.Code, mid int32, tok message.Token, payload string) {
+func (sc *scenario) inject(typ message.Type, code codes.Code, mid int32, tok message.Token, payload string, path ...string) {
 	m := pool.NewMessage(context.Background())
 	m.SetType(typ)
 	m.SetCode(code)
@@ -123,11 +128,49 @@ func (sc *scenario) inject(typ message.Type, code codes.Code, mid int32, tok mes
 	if tok != nil {
 		m.SetToken(tok)
 	}
+	if len(path) == 1 && path[0] != "" {
+		_ = m.SetPath(path[0])
+	}
 	if payload != "" {
 		m.SetContentFormat(message.TextPlain)
 		m.SetBody(bytes.NewReader([]byte(payload)))
 	}
 	sc.lk.inject(encode(m))
+}
+
+// runCall issues the request of call c with Conn.Do and records how the call ended.
+func (sc *scenario) runCall(c *call) {
+	resp, err := sc.cc.Do(c.req)
+	res := ""
+	if err != nil {
+		res = classify(err)
+	} else {
+		body, _ := io.ReadAll(resp.Body())
+		res = "ok:" + string(body)
+		sc.cc.ReleaseMessage(resp)
+	}
+	sc.mu.Lock()
+	sc.rets = append(sc.rets, retEntry{c.id, res, time.Since(sc.base).Nanoseconds()})
+	sc.mu.Unlock()
+}
+
+// handler of the connection under test (levels hand / opt): a request for /h<id> makes the handler itself issue request
+// <id> (op `hsend`) and wait for its result before it returns; everything else goes to the library's default handler.
+func (sc *scenario) handler(def udpclient.HandlerFunc) udpclient.HandlerFunc {
+	return func(w *responsewriter.ResponseWriter[*udpclient.Conn], r *pool.Message) {
+		if p, err := r.Path(); err == nil && strings.HasPrefix(p, "/h") {
+			if id, errA := strconv.Atoi(p[2:]); errA == nil {
+				sc.mu.Lock()
+				c := sc.calls[id]
+				sc.mu.Unlock()
+				if c != nil {
+					sc.runCall(c)
+				}
+				return
+			}
+		}
+		def(w, r)
+	}
 }
 
 // setupRequest fills req according to the kind letter of the `send` op.
@@ -254,20 +297,61 @@ func (sc *scenario) observe(stamp int64, isTick bool) string {
 
 // link is the path between the harness ("the peer") and the connection under test.
 type link struct {
-	failNext func()          // the next write of the transport fails while the connection stays usable (nil: not supported)
+	failNext func() // the next write of the transport fails while the connection stays usable (nil: not supported)
 	inject   func(data []byte)
 	takeSent func() []mem.Sent
 	tick     func(now time.Time)
 	close    func()
 }
 
+// handLink. Datagrams from the peer are handed to Conn.Process by ONE goroutine, in order, like the read loop of a
+// session does on a socket: when Process blocks (the queue of received messages is full and nobody drains it) the
+// datagrams behind it wait - an acknowledgement behind a burst is not seen before the burst got through.
 func handLink(cc *udpclient.Conn, s *mem.UDPSession) link {
+	var mu sync.Mutex
+	var fifo [][]byte
+	wake := make(chan struct{}, 1)
+	stop := make(chan struct{})
+	done := make(chan struct{})
+	go func() {
+		defer close(done)
+		for {
+			mu.Lock()
+			var d []byte
+			if len(fifo) > 0 {
+				d = fifo[0]
+				fifo = fifo[1:]
+			}
+			mu.Unlock()
+			if d != nil {
+				_ = cc.Process(nil, d)
+				continue
+			}
+			select {
+			case <-wake:
+			case <-stop:
+				return
+			}
+		}
+	}()
 	return link{
 		failNext: func() { s.FailNext(1) },
-		inject:   func(d []byte) { _ = cc.Process(nil, d) },
+		inject: func(d []byte) {
+			mu.Lock()
+			fifo = append(fifo, d)
+			mu.Unlock()
+			select {
+			case wake <- struct{}{}:
+			default:
+			}
+		},
 		takeSent: s.TakeSent,
 		tick:     func(now time.Time) { cc.CheckExpirations(now) },
-		close:    func() { _ = cc.Close() },
+		close: func() {
+			_ = cc.Close()
+			close(stop)
+			<-done
+		},
 	}
 }
 
@@ -379,6 +463,7 @@ func runScenario(t *testing.T, line string) string {
 				cfg.LimitClientParallelRequests = 0
 				cfg.LimitClientEndpointParallelRequests = 0
 				cfg.GetMID = func() int32 { return 0 }
+				cfg.Handler = sc.handler(cfg.Handler)
 			}})
 			sc.lk = handLink(sc.cc, s)
 		case "dtlssrv":
@@ -414,7 +499,7 @@ func runScenario(t *testing.T, line string) string {
 				return sc.calls[id], id
 			}
 			switch f[0] {
-			case "send", "sendf":
+			case "send", "sendf", "hsend":
 				// sendf: the transport refuses the first transmission of this request (the call fails at once); nothing of
 				// the exchange may stay behind - no later copy, no NSTART slot
 				if f[0] == "sendf" {
@@ -444,20 +529,20 @@ func runScenario(t *testing.T, line string) string {
 				sc.mu.Lock()
 				sc.calls[id] = c
 				sc.mu.Unlock()
-				go func() {
-					resp, err := sc.cc.Do(req)
-					res := ""
-					if err != nil {
-						res = classify(err)
-					} else {
-						body, _ := io.ReadAll(resp.Body())
-						res = "ok:" + string(body)
-						sc.cc.ReleaseMessage(resp)
-					}
-					sc.mu.Lock()
-					sc.rets = append(sc.rets, retEntry{id, res, time.Since(sc.base).Nanoseconds()})
-					sc.mu.Unlock()
-				}()
+				if f[0] == "hsend" {
+					// the peer's request arrives; its handler (sc.handler) issues request id and waits for the result
+					sc.peerMID++
+					sc.inject(message.NonConfirmable, codes.GET, sc.peerMID, message.Token{0xfe, byte(id)}, "", "/h"+strconv.Itoa(id))
+				} else {
+					go sc.runCall(c)
+				}
+			case "burst":
+				// unrelated messages from the peer (responses nobody waits for): they only have to get through the queue
+				k, _ := strconv.Atoi(f[1])
+				for i := 0; i < k; i++ {
+					sc.peerMID++
+					sc.inject(message.NonConfirmable, codes.Content, sc.peerMID, message.Token{0xfd, byte(i), byte(i >> 8)}, "x", "")
+				}
 			case "sleep":
 				d, _ := strconv.ParseInt(f[1], 10, 64)
 				time.Sleep(time.Duration(d))
